@@ -392,6 +392,7 @@ func runC03(p *core.Prog, r *core.Report) {
 	r.Rule("C03-R1", "receiver immutability: no handler or Logger method stores through its receiver, appends to a slice owned by the receiver, or hands such memory to code that does (followed through module callees and closures)", 14)
 	r.Rule("C03-R2", "clipped inheritance: the receiver's pre-rendered bytes reach another handler only through slices.Clip / Clone (never a plain copy of the slice header or of the whole struct)", 3)
 	r.Rule("C03-R3", "Options are immutable after construction (shared by pointer between all derived handlers)", 1)
+	r.Rule("C03-R5", "no use after release: in every function of the package, no slice that shares storage with an object obtained from a sync.Pool is used once that object went back with Put (until it is obtained again)", 0)
 	r.Rule("C03-R4", "With ≡ call site: WithAttrs renders attributes with the same emitter and the same state arguments (separator flag / group prefix / colour) as Handle does for the record's own attributes, and every attribute is rendered with a freshly obtained group-prefix scratch buffer", 5)
 	r.NotDecided = append(r.NotDecided, "byte equality with an isolated replay as such (follows from non-aliasing + determinism of the emitters; argued, not computed)")
 	r.Trusted = append(r.Trusted, "slices.Clip returns s[:len(s):len(s)] (append reallocates)", "slices.Clone / bytes.Clone return a fresh backing array", "go/ssa")
@@ -525,8 +526,8 @@ func runC03(p *core.Prog, r *core.Report) {
 			}
 		}
 		with, handle = p.Inl(with, keep...), p.Inl(handle, keep...)
-		emW := emitterCalls(p, with)
-		emH := emitterCalls(p, handle)
+		emW := emitterCalls(p, with, keep...)
+		emH := emitterCalls(p, handle, keep...)
 		if len(emH) == 0 {
 			r.Fail("C03-R4", h.Name+": attribute emitter in Handle", p.FuncPos(handle), "Handle does not call an attribute emitter")
 			continue
@@ -560,7 +561,7 @@ func runC03(p *core.Prog, r *core.Report) {
 			}
 			r.Check(len(skipped) == 0, "C03-R4", h.Name+": WithAttrs renders every attribute it is given", p.FuncPos(with), "the emitter call is reached on every iteration of the attribute loop", strings.Join(uniq(skipped), "; ")+": an attribute dropped by With would still be printed when passed at the call site")
 		}
-		sigW, sigH := emitterSig(emW), emitterSig(emH)
+		sigW, sigH := emitterSig(p, emW), emitterSig(p, emH)
 		r.Check(sigW == sigH, "C03-R4", h.Name+": With attributes are rendered like call-site attributes", p.FuncPos(with), "same emitter and state arguments: "+short(sigH), "WithAttrs renders with "+short(sigW)+" but Handle renders the record's own attributes with "+short(sigH))
 		// scratch buffers are re-obtained per attribute
 		for _, fn := range []*ssa.Function{with, handle} {
@@ -617,6 +618,116 @@ func runC03(p *core.Prog, r *core.Report) {
 			}
 		}
 	}
+	// ---- R5: nothing taken from a pool is used after it was put back (every sync.Pool of the package, every function):
+	// whatever still points into a pooled object after Put — the slice a derived logger's attributes were collected in —
+	// is overwritten by the next caller that obtains the object
+	{
+		nPut := 0
+		for _, v := range pkgViews(p, "logger") {
+			for _, f := range sx.WithClosures(v.Fn) {
+				sx.Instrs(f, func(in ssa.Instruction) {
+					put, ok := in.(*ssa.Call)
+					if !ok || sx.CalleeName(put) != "(*sync.Pool).Put" || len(put.Call.Args) < 2 {
+						return
+					}
+					// the pooled object: the Get call the released pointer comes from
+					var root *ssa.Call
+					for _, lf := range leaves(stripIface(put.Call.Args[1])) {
+						if ta, isTA := lf.(*ssa.TypeAssert); isTA {
+							lf = ta.X
+						}
+						if g, isG := lf.(*ssa.Call); isG && sx.CalleeName(g) == "(*sync.Pool).Get" && g.Parent() == f {
+							root = g
+						}
+					}
+					if root == nil {
+						return
+					}
+					nPut++
+					derived := map[ssa.Value]bool{root: true}
+					for changed := true; changed; {
+						changed = false
+						add := func(v ssa.Value) {
+							if v != nil && !derived[v] {
+								derived[v] = true
+								changed = true
+							}
+						}
+						sx.Instrs(f, func(i2 ssa.Instruction) {
+							switch x := i2.(type) {
+							case *ssa.TypeAssert:
+								if derived[x.X] {
+									add(x)
+								}
+							case *ssa.ChangeType:
+								if derived[x.X] {
+									add(x)
+								}
+							case *ssa.Extract:
+								if derived[x.Tuple] {
+									add(x)
+								}
+							case *ssa.UnOp:
+								if x.Op == token.MUL && derived[x.X] {
+									if _, isSlice := x.Type().Underlying().(*types.Slice); isSlice {
+										add(x)
+									}
+									if _, isPtr := x.Type().Underlying().(*types.Pointer); isPtr {
+										add(x)
+									}
+								}
+							case *ssa.Slice:
+								if derived[x.X] {
+									add(x)
+								}
+							case *ssa.Phi:
+								for _, e := range x.Edges {
+									if derived[e] {
+										add(x)
+									}
+								}
+							case *ssa.Call:
+								if isBuiltin(x, "append") && derived[x.Call.Args[0]] {
+									add(x)
+								}
+							case *ssa.Store:
+								if al, isCell := x.Addr.(*ssa.Alloc); isCell && derived[x.Val] {
+									add(al)
+								}
+							}
+						})
+					}
+					late := ""
+					sx.WalkFrom(f, put, sx.Cut{Instrs: map[ssa.Instruction]bool{root: true}}, func(i2 ssa.Instruction) bool {
+						if i2 == ssa.Instruction(put) {
+							return true
+						}
+						if _, isDbg := i2.(*ssa.DebugRef); isDbg {
+							return true
+						}
+						for _, op := range i2.Operands(nil) {
+							if op == nil || *op == nil || !derived[*op] {
+								continue
+							}
+							if _, isSlice := (*op).Type().Underlying().(*types.Slice); !isSlice {
+								continue // the pointer itself may be compared or dropped; its storage is what must not be used
+							}
+							if late == "" {
+								late = p.Pos(i2.Pos())
+								if late == "-" || late == "" {
+									late = "in " + fnName(f)
+								}
+							}
+						}
+						return true
+					})
+					r.Check(late == "", "C03-R5", "pooled object released in "+fnName(f)+" is not used afterwards", p.Pos(put.Pos()), "no slice of the pooled object is used after Pool.Put", "a slice that shares the pooled object's storage is still used after Pool.Put ("+late+"): the next caller that obtains the object overwrites it — attributes of one derived logger turn into another's")
+				})
+			}
+		}
+		_ = nPut
+	}
+
 }
 
 // inheritedClipped: a value stored into a handler's pre-rendered field either does not derive from
@@ -685,9 +796,30 @@ func isEmitterCall(p *core.Prog, c *ssa.Call) bool {
 	return false
 }
 
-func emitterCalls(p *core.Prog, fn *ssa.Function) []*ssa.Call {
+func emitterCalls(p *core.Prog, fn *ssa.Function, keep ...*ssa.Function) []*ssa.Call {
 	var out []*ssa.Call
-	for _, f := range sx.WithClosures(fn) {
+	fns := sx.WithClosures(fn)
+	// a method value used as a callback (`r.Attrs(w.write)`): the method's body belongs to the function like a closure's
+	for _, f := range fns {
+		sx.Instrs(f, func(in ssa.Instruction) {
+			mc, ok := in.(*ssa.MakeClosure)
+			if !ok {
+				return
+			}
+			w, _ := mc.Fn.(*ssa.Function)
+			if w == nil || !strings.HasSuffix(w.Name(), "$bound") {
+				return
+			}
+			sx.Instrs(w, func(i2 ssa.Instruction) {
+				if c, ok := i2.(ssa.CallInstruction); ok {
+					if m := sx.StaticCallee(c); m != nil && p.InModule(m) && m.Blocks != nil {
+						fns = append(fns, sx.WithClosures(p.Inl(m, keep...))...)
+					}
+				}
+			})
+		})
+	}
+	for _, f := range fns {
 		sx.Instrs(f, func(in ssa.Instruction) {
 			if c, ok := in.(*ssa.Call); ok && isEmitterCall(p, c) {
 				out = append(out, c)
@@ -697,8 +829,61 @@ func emitterCalls(p *core.Prog, fn *ssa.Function) []*ssa.Call {
 	return out
 }
 
+// holderFieldOrigins: an origin `field:T.f` where T is a small private struct of the logger package that only carries
+// values into a callback (not a handler, not the options) stands for what is stored into that field.
+func holderFieldOrigins(p *core.Prog, org map[string]bool, depth int) map[string]bool {
+	out := map[string]bool{}
+	for o := range org {
+		out[o] = true
+	}
+	if depth > 2 {
+		return out
+	}
+	for o := range org {
+		if !strings.HasPrefix(o, "field:") {
+			continue
+		}
+		tf := strings.SplitN(strings.TrimPrefix(o, "field:"), ".", 2)
+		if len(tf) != 2 {
+			continue
+		}
+		n := p.Named("logger", tf[0])
+		if n == nil || n.Obj().Exported() {
+			continue
+		}
+		isHandler := false
+		for _, h := range logHandlers(p) {
+			if h.Name == tf[0] {
+				isHandler = true
+			}
+		}
+		if isHandler {
+			continue
+		}
+		f := fieldByName(n, tf[1])
+		if f == nil {
+			continue
+		}
+		delete(out, o)
+		for _, ref := range sx.FieldRefs(p.PkgFuncs("logger"), f) {
+			fa, ok := ref.Instr.(*ssa.FieldAddr)
+			if !ok {
+				continue
+			}
+			for _, a := range sx.Accesses(fa) {
+				if a.Kind == "write" && a.Val != nil {
+					for o2 := range holderFieldOrigins(p, sx.Origins(a.Val), depth+1) {
+						out[o2] = true
+					}
+				}
+			}
+		}
+	}
+	return out
+}
+
 // emitterSig: callee + per-argument set of field/call origins (constants, locals and parameters are ignored).
-func emitterSig(calls []*ssa.Call) string {
+func emitterSig(p *core.Prog, calls []*ssa.Call) string {
 	sigs := map[string]bool{}
 	for _, c := range calls {
 		var parts []string
@@ -711,7 +896,7 @@ func emitterSig(calls []*ssa.Call) string {
 				parts = append(parts, "out") // the output buffer: the line buffer in Handle, the pre-rendered bytes in WithAttrs
 				continue
 			}
-			org := sx.Origins(a)
+			org := holderFieldOrigins(p, sx.Origins(a), 0)
 			keep := map[string]bool{}
 			for o := range org {
 				if strings.HasPrefix(o, "field:") || strings.HasPrefix(o, "call:") {
@@ -723,4 +908,12 @@ func emitterSig(calls []*ssa.Call) string {
 		sigs[sx.FuncName(sx.StaticCallee(c))+"("+strings.Join(parts, ", ")+")"] = true
 	}
 	return keys(sigs)
+}
+
+// stripIface: the value inside a MakeInterface (what is handed to Pool.Put).
+func stripIface(v ssa.Value) ssa.Value {
+	if mi, ok := v.(*ssa.MakeInterface); ok {
+		return mi.X
+	}
+	return v
 }
